@@ -27,7 +27,7 @@ for prop in sorted(os.listdir(raw)):
             p=m.group(1) if m else 'mimetype'
             return {'charset':'internal/charset','magic':'internal/magic','json':'internal/json'}.get(p,'.')
         notes=open(d+'/notes.md').read() if os.path.exists(d+'/notes.md') else ''
-        race=' -race' if (prop=='C06' and '-race' in notes and 'needs `-race`' in notes.lower() or (sid in ('C06-2','C06-r2-1','C06-r3-2','C06-r4-3','C06-r5-2','C06-r5-3','C06-r6-3','C06-r7-1','C06-r7-3'))) else ''
+        race=' -race' if (prop=='C06' and '-race' in notes and 'needs `-race`' in notes.lower() or (sid in ('C06-2','C06-r2-1','C06-r3-2','C06-r4-3','C06-r5-2','C06-r5-3','C06-r6-3','C06-r7-1','C06-r7-3','C08-r8-2'))) else ''
         def clean(): sh('git checkout -- . && git clean -fdq')
         def place():
             pk=set()
